@@ -46,6 +46,10 @@ type Violation struct {
 
 // Shard accumulates what one worker process observed.
 type Shard struct {
+	// LastDone is the index of the last case completed when the shard was
+	// written (-1 none): a replacement worker carries on after it.
+	LastDone     int  `json:"last_done"`
+	HasDone      bool `json:"has_done"`
 	mu           sync.Mutex
 	Evals        int              `json:"evals"`
 	Sigs         map[string]int   `json:"sigs"`
@@ -301,13 +305,38 @@ func child(t *testing.T, c Check) {
 		}
 		return order[a] < order[b]
 	})
+	// VERIF_SKIP_UNTIL=<case>: this worker replaces one that died in that
+	// case from a check of the synctest runtime itself; it carries on with
+	// the case after it.
+	skipUntil, skipping := -1, false
+	if v := os.Getenv("VERIF_SKIP_UNTIL"); v != "" {
+		if n, err := strconv.Atoi(v); err == nil {
+			skipUntil, skipping = n, true
+		}
+	}
+	flushedViol := 0
 	for pos, i := range order {
 		if pos%nsh != shard {
 			continue
 		}
+		if skipping {
+			if i == skipUntil {
+				skipping = false
+			}
+			continue
+		}
 		fmt.Fprintf(jf, "%d\n", i)
+		if v := os.Getenv("VERIF_SELFTEST_DIE_AT"); v != "" && v == strconv.Itoa(i) && os.Getenv("VERIF_ATTEMPT") == "0" {
+			// self-test of the restart path
+			fmt.Fprintln(os.Stderr, "fatal error: sync: WaitGroup.Add called from inside and outside synctest bubble (self-test)")
+			os.Exit(2)
+		}
 		runCase(t, c, sh, i, tier)
-		if time.Since(last) > 5*time.Second {
+		sh.mu.Lock()
+		sh.LastDone, sh.HasDone = i, true
+		sh.mu.Unlock()
+		if nv := sh.NViol(); nv != flushedViol || time.Since(last) > 5*time.Second {
+			flushedViol = nv
 			sh.mu.Lock()
 			_ = writeJSON(out, sh)
 			sh.mu.Unlock()
@@ -414,24 +443,28 @@ func parent(t *testing.T, c Check) {
 	}
 
 	type res struct {
+		shard   int
 		sh      *Shard
 		crashed bool
 		timeout bool
 		lastJ   string
 		stderr  string
 	}
-	results := make([]res, procs)
+	var results []res
+	var resMu sync.Mutex
 	var wg sync.WaitGroup
-	for i := 0; i < procs; i++ {
-		wg.Add(1)
-		go func(i int) {
-			defer wg.Done()
-			out := filepath.Join(tmp, fmt.Sprintf("shard%d.json", i))
+	runWorker := func(i, attempt int, skipUntil string) res {
+		{
+			out := filepath.Join(tmp, fmt.Sprintf("shard%d.%d.json", i, attempt))
 			ctx, cancel := context.WithTimeout(context.Background(), wd)
 			defer cancel()
 			cmd := exec.Command(os.Args[0], "-test.run", "^"+t.Name()+"$",
 				"-test.timeout", "0")
 			env := os.Environ()
+			if skipUntil != "" {
+				env = append(env, "VERIF_SKIP_UNTIL="+skipUntil)
+			}
+			env = append(env, "VERIF_ATTEMPT="+strconv.Itoa(attempt))
 			if c.RaceLogs {
 				env = append(env, "GORACE=halt_on_error=0 history_size=3 log_path="+
 					filepath.Join(tmp, fmt.Sprintf("race.shard%d", i)))
@@ -446,8 +479,7 @@ func parent(t *testing.T, c Check) {
 			cmd.Stderr = &eb
 			cmd.Stdout = &eb
 			if err := cmd.Start(); err != nil {
-				results[i] = res{crashed: true, stderr: err.Error()}
-				return
+				return res{crashed: true, stderr: err.Error()}
 			}
 			done := make(chan error, 1)
 			go func() { done <- cmd.Wait() }()
@@ -477,7 +509,33 @@ func parent(t *testing.T, c Check) {
 				r.crashed = true
 			}
 			_ = werr
-			results[i] = r
+			return r
+		}
+	}
+	for i := 0; i < procs; i++ {
+		wg.Add(1)
+		go func(i int) {
+			defer wg.Done()
+			skip := ""
+			for attempt := 0; attempt < 6; attempt++ {
+				r := runWorker(i, attempt, skip)
+				r.shard = i
+				resMu.Lock()
+				results = append(results, r)
+				resMu.Unlock()
+				// A worker that died from a check of the synctest runtime
+				// itself is replaced by one that carries on after the case
+				// it died in.
+				if r.crashed && !r.timeout && strings.Contains(r.stderr, "called from inside and outside synctest bubble") {
+					// carry on after the last case whose results were
+					// written (the cases after it are run again)
+					if r.sh != nil && r.sh.HasDone {
+						skip = strconv.Itoa(r.sh.LastDone)
+					}
+					continue
+				}
+				return
+			}
 		}(i)
 	}
 	wg.Wait()
@@ -485,7 +543,8 @@ func parent(t *testing.T, c Check) {
 	total := newShard()
 	total.maxSamples = 6
 	var inconc []string
-	for i, r := range results {
+	for _, r := range results {
+		i := r.shard
 		if r.sh != nil {
 			total.Evals += r.sh.Evals
 			for k, v := range r.sh.Sigs {
@@ -524,7 +583,7 @@ func parent(t *testing.T, c Check) {
 			// and dropped inside one bubble). It says nothing about the
 			// property: the worker's remaining cases are lost.
 			inconc = append(inconc, fmt.Sprintf(
-				"worker %d died in case %s from a synctest runtime check (%s); its remaining cases were not run",
+				"worker %d died in case %s from a synctest runtime check (%s); a new worker carried on from the last recorded case",
 				i, r.lastJ, crashLine(r.stderr)))
 		} else if r.crashed {
 			cs, _ := strconv.Atoi(r.lastJ)
